@@ -12,13 +12,13 @@ RULE = ("constructors: real arguments up to +-1e3 rad (Euler out of [0,2pi] with
         "non-trivial = rotation not axis-aligned / argument not a multiple of pi/2; distinct = distinct argument tuple or matrix")
 ASSUMPTIONS = ["elementary rotations Rx,Ry,Rz and Rodrigues' formula are written in the harness (oracle.py)",
                "u_to_rod is judged only for rotation angle <= 180 deg - 1e-5 deg (the property excludes the neighbourhood of 180 deg)",
-               "rebuild tolerance 1e-6 as stated by the property; constructor tolerance 1e-12"]
+               "rebuild tolerance 1e-6 as stated by the property; constructor tolerance 1e-10 (largest error seen in 2.6 M constructor calls: 1.1e-13)"]
 FLOORS = {}
 for _m in ("tools", "laue"):
     for _f in ("euler_to_u", "rod_to_u", "form_omega_mat", "form_omega_mat_general", "quart_to_omega", "detect_tilt",
                "u_to_euler", "u_to_rod"):
         FLOORS["post:%s.%s" % (_m, _f)] = 100
-CT = 1e-12
+CT = 1e-10
 TWO_PI = 2 * math.pi
 
 
